@@ -46,6 +46,10 @@ CLAIMED = {
    technique="exhaustive enumeration of dictionary-building programs x hash seeds until every iteration order of each dictionary has been exercised (seed control by getrandom interposition), comparing all runs byte for byte",
    text="All programs that build a dictionary from every ordered selection of 2, 3 (thorough 4) keys of mixed kinds and then join / print / compare / copy / raise each error whose message renders the array, plus a parse / lint / runtime-error corpus, are each executed in fresh threads under hash seeds 0,1,2,... The dictionary is read back after every run to learn its actual iteration order and seeds are added until all k! orders have occurred, so 'some order misbehaves' cannot hide behind an unlucky sample. stdout, result, error text, parse errors and lint reports must be identical across all runs and both builds.",
    note="Trusted: std resolves getrandom through a weak symbol (self-test checks same seed => same order, different seeds => different orders). Cross-process determinism of the CLI binary is covered with C20. Addresses/time: rrss uses neither (no source of them in the code)."),
+ "C02": dict(level="exploration", design="§2 C02",
+   technique="bounded exhaustive enumeration of (text, expected tree) pairs from an independent reference grammar x all single (thorough: pairs of) departures from canonical spelling, parsed by the real parser",
+   text="A reference grammar that never calls the rrss parser generates token lists together with the tree its own semantic actions assign (precedence ladder, left-associative folds, last-operator-takes-the-list, argument separators, one blank line closes one block, else closes a then-block, an if-else ends a function body). Exhausted: all chains of 2 and 3 operators over 18 operator spellings, unary prefixes in every position, list operands at every level, primaries (subscripts, calls x 5 separators x 1..3 arguments, roll, literal kinds, 10 numeral and 7 string spellings, three name kinds), all 18 statement kinds with every slot filled from a 14-shape set in 3 contexts, all block-nesting shapes up to 8/9 nodes closed by blank lines or by end of input; and on ~7 000 base programs every single departure from canonical spelling: each keyword x every alias of a 132-word alias table (own copy), 3 case variants plus all 2^n casings for short words, each gap x 14 noise kinds (spaces, tabs, ignorable punctuation, stray apostrophe, one- and two-line comments), 's / 're, trailing punctuation, indentation, missing final newline. Oracle: position-free tree of parse(text) equals the grammar's tree.",
+   note="Trusted: the reference grammar (refmodel/grammar.rs) and the position-free converter. Not generated: corners the property does not determine (nested lists in later elements, empty blocks followed by statements), identifier case (C15), poetic content (C11)."),
 }
 NOT_YET = "check under construction in this session (not yet claimed)"
 ids=[json.loads(l)["id"] for l in open("/verif/properties.jsonl")]
